@@ -581,10 +581,54 @@ fn run(cfg: &Cfg) -> Report {
         }
     }
     let mut rep = par_shards(cfg, "c01", tasks.len(), |idx, rng, rep| run_task(&tasks[idx], cfg, rng, rep));
+    if cfg.tier == Tier::Thorough {
+        let args: Vec<String> = vec!["c01-wide".into(), "150".into(), cfg.seed.to_string()];
+        // The aliasing model is switched off for this layer: Miri (Stacked Borrows and Tree Borrows alike) rejects
+        // `apint 0.2`'s `ApInt::drop_digits` (deallocation through a pointer derived from a shared reference) on the
+        // first drop of any bitvector wider than 64 bits - a finding in the *dependency*, recorded in DESIGN.md §11.5,
+        // which would otherwise hide every other class of undefined behaviour (out-of-bounds, uninitialised reads,
+        // invalid values) that this layer is there to look for.
+        let outcome = crate::miri::run_logmon_under_miri_with(cfg, &args, None, 1500, "-Zmiri-disable-stacked-borrows");
+        crate::miri::fold(&mut rep, "c01-wide-operands", &args, outcome);
+        rep.note("Miri layer runs with -Zmiri-disable-stacked-borrows (apint 0.2 drop_digits violates the aliasing models; dependency finding, see DESIGN.md §11.5)");
+    }
     rep.sample(json!({"kind":"bin","op":"IntSBorrow","a":vjson(V::from_i(-5,1)),"b":vjson(V::from_i(-3,1)),"reference":"0"}));
     rep.sample(json!({"kind":"bin","op":"IntSRight","a":vjson(V::new(0x8000_0000,4)),"b":vjson(V::new(40,1)),"reference":"0xffffffff"}));
     rep.sample(json!({"kind":"cast","op":"LzCount","size":1,"a":vjson(V::new(1,8)),"reference":"63"}));
     rep
+}
+
+/// `logmon c01-wide <ops> <seed>`: 16-byte (and 9..15-byte) operations, where `apint` uses its heap representation
+/// (dependency `unsafe` code) - small enough to run under Miri.
+pub fn logmon_main(args: &[String]) -> i32 {
+    let n: u64 = args.first().and_then(|s| s.parse().ok()).unwrap_or(200);
+    let seed: u64 = args.get(1).and_then(|s| s.parse().ok()).unwrap_or(1);
+    let mut rng = Rng::derive(seed, "logmon-c01", 0);
+    let mut rep = Report::new();
+    for i in 0..n {
+        let w = *rng.pick(&[16u32, 16, 9, 10, 12, 15]);
+        let a = V::new(rng.biased(w), w);
+        let op = pref::INT_BIN_OPS[(i as usize) % pref::INT_BIN_OPS.len()];
+        if pref::is_bool_bin(op) || op == BinOpType::Piece {
+            let lw = rng.range_usize(1, 8) as u32;
+            let rw = rng.range_usize(1, 8) as u32;
+            check_bin(BinOpType::Piece, V::new(rng.biased(lw), lw), V::new(rng.biased(rw), rw), &mut rep, true);
+        } else if pref::is_shift(op) {
+            check_bin(op, a, V::new(rng.biased(1), 1), &mut rep, true);
+        } else {
+            check_bin(op, a, V::new(rng.biased(w), w), &mut rep, true);
+        }
+        check_un(UnOpType::Int2Comp, a, &mut rep);
+        check_cast(CastOpType::IntSExt, 16, a, &mut rep);
+        check_cast(CastOpType::LzCount, 2, a, &mut rep);
+        let size = rng.range_usize(1, w as usize) as u32;
+        check_subpiece(rng.below((w - size + 1) as u64) as u32, size, a, &mut rep);
+    }
+    for (sig, v) in &rep.violations {
+        println!("VIOLATION property=C01 signature={sig} detail={}", v.detail);
+    }
+    println!("logmon c01-wide: ops={n} evaluations={} violations={}", rep.evaluations, rep.violations.len());
+    if rep.violations.is_empty() { 0 } else { 1 }
 }
 
 fn replay(_cfg: &Cfg, case: &Value) -> Report {
